@@ -1095,9 +1095,16 @@ class Sim:
                 tags.append("first_after_division")
         else:
             tags.append("invalid_unknown")
+        pixels_arg = None
+        if op.get("invalid") == "bad_pixels" and n in g.nodes:
+            # invalid request: the optional pixels argument names a mask that cannot be
+            # written (outside the array, or any mask on tracks without segmentation)
+            t_n = self.time_of(n)
+            pixels_arg = (np.array([t_n]), *[np.array([s]) for s in self.fshape])
+            tags.append("invalid_bad_pixels")
         out = self._user_action(
-            op, lambda: UserDeleteNode(tr, n), "dn", {"node": n}, tags,
-            named={"nodes": named, "tracks": set()}, extra={"allowed_removals": allowed, "reason": "unknown" if n not in g.nodes else None},
+            op, lambda: UserDeleteNode(tr, n, pixels=pixels_arg), "dn", {"node": n}, tags,
+            named={"nodes": named, "tracks": set()}, extra={"allowed_removals": allowed, "reason": "unknown" if n not in g.nodes else ("bad_pixels" if pixels_arg is not None else None)},
         )
         if out["cls"] == "accepted":
             for tg in tags:
@@ -1295,6 +1302,8 @@ class Sim:
         protected = set(tr.annotators.all_features) | {tr.features.time_key}
         must_refuse = False
         val = op.get("val", 0.5)
+        if key == "note":
+            val = f"n{int(val * 1000)}"
         if key == "@time":
             key = tr.features.time_key
             val = int(val * 5)
@@ -1829,7 +1838,7 @@ class Sim:
                 call("has_track_id_at_time", lambda tid=tid, t=t: tr.has_track_id_at_time(tid, t))
         out = {"cls": "returned", "resolved": {"calls": len(called)}}
         if self.active("C16"):
-            dd = observe.deep_diff(self.pre["deep"], observe.deep(tr, len(self.emissions)))
+            dd = observe.deep_diff(self.pre["deep"], observe.deep(tr, len(self.emissions)), ignore=("counters",))
             if dd:
                 self.violate("C16", "C16.query", f"read-only queries changed {dd[:2]}", op)
             else:
